@@ -27,6 +27,9 @@ def variants(rng, atoms_counts, k):
         else:
             # a multiple of an (inspected) operand plus the rest: 2 * (half of everything)
             out.append(["mul", 2, ["seq", [[x[0] / 2.0, x[1]] for x in items]]])
+    # one of the variants has been saved and restored (pickle / deepcopy): it is still the same formula
+    j = rng.randrange(len(out))
+    out[j] = [rng.choice(["deepcopy", "pickle"]), out[j]]
     return out
 
 
